@@ -145,8 +145,10 @@ def dump_graph(builder):
         if isinstance(e, S.Index):
             return {"k": "idx", "e": expr(e._child_), "key": world.encode(e._key_, {})}
         if isinstance(e, S.Call):
-            arg = world.encode(e._args_[0], {}) if e._args_ else {"t": "noarg", "v": 0}
-            return {"k": "mcall", "e": expr(e._child_._child_), "m": e._child_._attr_name_, "arg": arg}
+            arg = world.encode(e._args_[0], {}) if e._args_ else \
+                (world.encode(e._kwargs_["k"], {}) if e._kwargs_ else {"t": "noarg", "v": 0})
+            return {"k": "mcall", "e": expr(e._child_._child_), "m": e._child_._attr_name_, "arg": arg,
+                    "kw": bool(e._kwargs_)}
         if isinstance(e, S.Variable) and id(e) in var_index:
             return {"k": "var", "i": var_index[id(e)]}
         return {"k": "other:" + type(e).__name__}
